@@ -126,15 +126,6 @@ Proof.
     + apply Z.sgn_null_iff. lia.
 Qed.
 
-(* division by zero is reported as problog ArithmeticError by every division-like operator *)
-Lemma zero_divisor_is_problog_error :
-  forall a, is_m (EApp2 "//" (ENum (VInt a)) (ENum (VInt 0))) = OArithErr
-         /\ is_m (EApp2 "/" (ENum (VInt a)) (ENum (VInt 0))) = OArithErr
-         /\ is_m (EApp2 "mod" (ENum (VInt a)) (ENum (VInt 0))) = OArithErr
-         /\ is_m (EApp2 "rem" (ENum (VInt a)) (ENum (VInt 0))) = OArithErr
-         /\ is_m (EApp2 "div" (ENum (VInt a)) (ENum (VInt 0))) = OArithErr.
-Proof. intros. repeat split; reflexivity. Qed.
-
 (* unknown functions and non-ground right-hand sides are ProbLog errors *)
 Lemma nonground_is_callmode : forall e, ground e = false -> is_m e = OCallMode.
 Proof. intros e H. unfold is_m. rewrite H. reflexivity. Qed.
@@ -173,3 +164,17 @@ Proof.
   cbv -[Z.div Z.modulo Z.eqb Z.ltb Z.leb Z.gtb Z.geb Z.quot Z.opp Z.add Z.sub Z.mul].
   split_ifs; try reflexivity; try (exfalso; lia); f_equal; nia.
 Qed.
+
+(* division by zero is reported as problog ArithmeticError by every division-like operator *)
+Lemma zero_divisor_is_problog_error :
+  forall a, is_m (EApp2 "//" (ENum (VInt a)) (ENum (VInt 0))) = OArithErr
+         /\ is_m (EApp2 "/" (ENum (VInt a)) (ENum (VInt 0))) = OArithErr
+         /\ is_m (EApp2 "mod" (ENum (VInt a)) (ENum (VInt 0))) = OArithErr
+         /\ is_m (EApp2 "rem" (ENum (VInt a)) (ENum (VInt 0))) = OArithErr
+         /\ is_m (EApp2 "div" (ENum (VInt a)) (ENum (VInt 0))) = OArithErr.
+Proof.
+  intros. repeat split;
+    cbv -[Z.div Z.modulo Z.eqb Z.ltb Z.leb Z.gtb Z.geb Z.quot Z.opp Z.add Z.sub Z.mul];
+    split_ifs; try reflexivity; exfalso; lia.
+Qed.
+
